@@ -25,6 +25,9 @@ TECHNIQUE = "static analysis: abstract evaluation of the selection code on model
 
 
 def t_loc(chk, ix):
+    # row scenarios are built once and keep their state (status, skip marks): build_scenarios clears every table's modified mark
+    from .. import rules_outline
+    rules_outline.check_build_order(chk, ix)
     rules_location.check_line_expansion(chk, ix)
     rules_location.check_build_feature(chk, ix)
     rules_location.check_add_location_and_clear(chk, ix)
@@ -40,5 +43,5 @@ def t_loc(chk, ix):
 
 def run(chk, ix, tier):
     t_loc(chk, ix)
-    for r, n in (("L1", 4), ("L3", 2), ("L4", 6), ("L6", 3), ("L7", 8), ("L8", 3), ("L9", 11), ("L10", 3), ("RF1", 3), ("G4", 16)):
+    for r, n in (("B1", 1), ("B4", 1), ("L1", 4), ("L3", 2), ("L4", 6), ("L6", 3), ("L7", 8), ("L8", 3), ("L9", 11), ("L10", 3), ("RF1", 3), ("G4", 16)):
         chk.require_instances(r, n)
